@@ -21,6 +21,11 @@ RULE = ("seeded generator of advanceBlockchain / updateAncestorBlock requests: 1
         "computed by construction (own RLP, own Keccak-256). distinct = (command, #blocks, "
         "field-count set, brother-count multiset class, chunk policy, stop rule, ask pattern); "
         "non-trivial = >= 2 blocks, or >= 1 brother list of >= 2")
+RULE_ADDED = (
+              'Also: 15% of the headers of a request come from a pool of headers already sent on '
+              'that manager, in either role (block / brother); a fifth of the cases over the SGX / '
+              'TCPSigner transport ')
+RULE = RULE + " " + RULE_ADDED.strip()
 ASSUMPTIONS = [
     "simulated device + fake transports trusted; the device follows framing only",
     "blocks are canonical RLP (what rskj produces); non-canonical encodings are out of scope",
